@@ -112,6 +112,7 @@ func (p *Program) NewMachine() (*Machine, error) {
 		poison:         make(map[*ssa.Global]string),
 		sizes:          &types.StdSizes{WordSize: 8, MaxAlign: 8},
 		tt:             NewTermTable(),
+		NoDomain:       os.Getenv("GOSYM_NODOMAIN") != "", // self-consistency runs: every feasibility question goes to the solver
 		redirects:      map[string]*ssa.Function{},
 		noops:          map[string]bool{},
 		merges:         map[string]bool{},
